@@ -654,7 +654,7 @@ async fn run_inner(tables: &Tables, case: &Case, ctx: &mut CaseCtx, tally: &mut 
             }
             match st {
                 Standing::Unentitled => {
-                    if t.well_formed {
+                    if t.well_formed || t.routed_segment {
                         reject.check(e.resp_wire, &x.resp).map_err(|m| fail("1-uniform-rejection", &plan, c, 0, phase, m))?;
                     }
                     tally.add("rejections_checked");
@@ -755,7 +755,7 @@ async fn run_inner(tables: &Tables, case: &Case, ctx: &mut CaseCtx, tally: &mut 
                     format!("a request of a caller without any entitlement wrote to storage: {:?}", x.writes),
                 ));
             }
-            if st == Standing::Unentitled && t.well_formed {
+            if st == Standing::Unentitled && (t.well_formed || t.routed_segment) {
                 reject.check(e.resp_wire, &x.resp).map_err(|m| {
                     fail(
                         "1-uniform-rejection",
